@@ -1389,7 +1389,7 @@ func TestC17_Timing(t *testing.T) {
 		}
 		shard, shards := stats.Shard()
 		for i, c := range timingCases(n, uint64(stats.Seed())) {
-			if i%shards == shard {
+			if (i+1)%shards == shard { // shard 0 already runs the over-cap cases
 				cases = append(cases, c)
 			}
 		}
